@@ -36,6 +36,8 @@ from urllib import parse as urlparse
 
 from gevent import socket
 
+from slimta.util import create_default_context
+
 __all__ = ['HTTPConnection', 'HTTPSConnection', 'get_connection']
 
 
@@ -69,6 +71,8 @@ class HTTPSConnection(httplib.HTTPSConnection):
     """
 
     def __init__(self, host, port=None, *args, **kwargs):
+        if kwargs.get('context') is None:
+            kwargs['context'] = create_default_context()
         httplib.HTTPSConnection.__init__(self, host, port, *args, **kwargs)
         self._create_connection = socket.create_connection
 
